@@ -221,6 +221,13 @@ def gen_ops(rng, tier):
             j = rng.randrange(m)
             for r in data:
                 r[j] = data[0][j]  # constant column
+        if rng.random() < 0.35:
+            # a column whose offset dwarfs its spread (coordinates, dates, temperatures): ill-conditioned for any
+            # variance formula that subtracts large squares
+            j = rng.randrange(m)
+            off, step = rng.choice([(1e8, 1.0), (1e8, 0.001), (2450000.5, 0.01), (37.0, 1e-7), (-1e6, 0.5), (1e12, 3.0), (170.0, 1.0)])
+            for r in data:
+                r[j] = off + step * rng.randint(0, 19)
         yield {"samples": [f"s{i}" for i in range(ns)], "names": [f"p{j}" for j in range(m)], "data": data, "rs": rng.choice([None, rng.sample([f"s{i}" for i in range(ns)] + ["zz"], rng.randint(1, ns + 1))]), "cs": rng.choice([None, rng.sample([f"p{j}" for j in range(m)], rng.randint(1, m))])}
 
 
@@ -267,9 +274,15 @@ def oracle_ops(case, obs):
             if any(x != 0 for x in std):
                 return f"constant column {col} standardised to {std}, expected all zeros"
         else:
+            from fractions import Fraction as Fr
+
             mean = sum(std) / ns
             var = sum((x - mean) ** 2 for x in std) / ns
-            if abs(mean) > 1e-9 or abs(var - 1) > 1e-9:
+            # the mean of the input is itself only known to a few ulp of the largest entry: allow that, relative to the spread
+            em = sum(Fr(x) for x in col) / ns
+            esd = float(sum((Fr(x) - em) ** 2 for x in col) / ns) ** 0.5
+            tol_mean = 1e-9 + 8 * ns * 2.3e-16 * max(abs(x) for x in col) / esd
+            if abs(mean) > tol_mean or abs(var - 1) > 1e-9:
                 return f"column {col} standardised to {std}: mean {mean}, variance {var} (expected 0 and 1)"
     a = obs["append"]
     if a["names"] != case["names"] + ["extra"] or a["samples"] != case["samples"] or a["data"] != [D[i] + [float(i)] for i in range(ns)]:
@@ -331,7 +344,7 @@ CHECK = Check(
             impl=impl_ops,
             oracle=oracle_ops,
             nontrivial=lambda c, o: C.jdump(c),
-            rule="standardize (mean 0 / variance 1 within 1e-9, all zeros iff constant, incl. columns of scale 1e-9 and 1e-12), append, subset (requested order, unknown samples dropped), check_missing (raise / discard exactly the rows holding -9)",
+            rule="standardize (mean 0 / variance 1 within 1e-9, all zeros iff constant, incl. columns of scale 1e-9 and 1e-12 and columns whose offset is 1e6..1e12 times their spread), append, subset (requested order, unknown samples dropped), check_missing (raise / discard exactly the rows holding -9)",
         ),
     ],
     known_predicates={"suffix_collision": known_suffix},
